@@ -125,6 +125,40 @@ def three_roll_cases(chk, rng):
                         chk.fail(key, f"{name}: height {h} fed back gives gap {rp3.gap}, original {gap}", data)
                     if key == 'three-roundtrip-height':
                         return
+            # whichever member is given, the other two are available in every read order, with the same values
+            if gap > 0 and name != 'FlatGroove' and 'indent' not in kw:
+                import itertools
+                ref = {'gap': gap, 'height': h, 'inscribed_circle_diameter': icd}
+                for given in ref:
+                    for order in itertools.permutations(ref):
+                        rpo = ThreeRollPass(label="p", roll=Roll(groove=g, nominal_radius=0.2), **{given: ref[given]})
+                        for k in order:
+                            try:
+                                v = float(getattr(rpo, k))
+                            except Exception as e:      # noqa
+                                return chk.fail('three-read-order', f"{name}: three-roll pass defined by {given}: reading {k} (order {' -> '.join(order)}) raises "
+                                                f"{type(e).__name__}", dict(data, given=given, order=list(order)))
+                            if abs(v - ref[k]) > 1e-9 * scale:
+                                return chk.fail('three-read-order', f"{name}: three-roll pass defined by {given}: {k} = {v} when read in the order "
+                                                f"{' -> '.join(order)}, {ref[k]} otherwise", dict(data, given=given, order=list(order)))
+                # histories: the defining member is edited after the others were read; re-evaluation must follow the new value
+                for given in ('inscribed_circle_diameter', 'height', 'gap'):
+                    rpe = ThreeRollPass(label="p", roll=Roll(groove=g, nominal_radius=0.2), **{given: ref[given]})
+                    for k in rng.sample(list(ref), 3):
+                        getattr(rpe, k)
+                    new = ref[given] + (1e-3 if given != 'gap' else 5e-4)
+                    setattr(rpe, given, new)
+                    rpe.reevaluate_cache()
+                    fresh = ThreeRollPass(label="p", roll=Roll(groove=g, nominal_radius=0.2), **{given: new})
+                    for k in ref:
+                        a, b = float(getattr(rpe, k)), float(getattr(fresh, k))
+                        if abs(a - b) > 1e-9 * scale:
+                            return chk.fail('three-edit', f"{name}: three-roll pass defined by {given}, all members read, {given} changed to {new} and the cache "
+                                            f"re-evaluated: {k} = {a}, a fresh pass with the new {given} gives {b}", dict(data, given=given))
+                    ca = [np.array(c.coords) for c in rpe.contour_lines.geoms]
+                    cb = [np.array(c.coords) for c in fresh.contour_lines.geoms]
+                    if any(not same_curve(x, y, 1e-9 * scale) for x, y in zip(ca, cb)):
+                        return chk.fail('three-edit', f"{name}: after changing {given} and re-evaluating, the contour lines are still those of the old opening", dict(data, given=given))
             import warnings
             try:
                 with warnings.catch_warnings():
